@@ -378,7 +378,9 @@ def r2_form_selection(ctx, rep):
     if not rd:
         raise AnalysisError("FortranSourceFile.__init__: FortranReader call not found")
     b = astq.bind_args(rd[0], fr, skip_self=True)
-    ok = "fixed" in b and ast.unparse(b["fixed"]) == "fixed" and "length_limit" in b and "fixed_length_limit" in ast.unparse(b["length_limit"])
+    # (the limit may come through a local or an optional parameter that nobody supplies and that defaults to the setting)
+    srcs = astq.value_sources(py, sdef, b["length_limit"]) if "length_limit" in b else []
+    ok = "fixed" in b and ast.unparse(b["fixed"]) == "fixed" and bool(srcs) and all(isinstance(x, ast.Attribute) and x.attr == "fixed_length_limit" for x in srcs)
     rep.ob("source file passes fixed and fixed_length_limit to the reader", ok,
            "FortranReader(..., fixed=fixed, length_limit=settings.fixed_length_limit)" if ok else
            f"reader arguments fixed={ast.unparse(b['fixed']) if 'fixed' in b else 'default'}, "
@@ -405,7 +407,7 @@ def r2_form_selection(ctx, rep):
            f"nested reader gets fixed={ast.unparse(b['fixed']) if 'fixed' in b else 'default'}, "
            f"length_limit={ast.unparse(b['length_limit']) if 'length_limit' in b else 'default (True)'}",
            py.nloc(rd[0]))
-    po = py.func("ProjectSettings.__post_init__")
+    po = py.ifunc("ProjectSettings.__post_init__")      # canonical form: `next(generator, None)` searches are loops
     pev = astq.trace(po)
     ok = any(e.kind == "raise" and "ValueError" in e.text() and any("extensions" in c and " in " in c for c in e.cond_texts())
              and any("fixed" in x for x in e.cond_texts() + [ast.unparse(l.iter) for l in e.loops]) for e in pev)
